@@ -8,6 +8,7 @@ import Driver.Ops.Triangle
 import Driver.Ops.Valid
 import Driver.Ops.Classify
 import Driver.Ops.Helpers
+import Driver.Ops.Geometric
 
 /-!
 # Driver/Main — the model behind a one-line-in, one-line-out protocol (K := Rat)
@@ -21,7 +22,7 @@ open Driver
 /-- the op modules, tried in order -/
 def handlers : List (String → List V → Option String) :=
   [Driver.Ops.Curve.handle, Driver.Ops.Area.handle, Driver.Ops.Locate.handle,
-   Driver.Ops.Protocol.handle, Driver.Ops.Algebraic.handle, Driver.Ops.Triangle.handle, Driver.Ops.Valid.handle, Driver.Ops.Classify.handle, Driver.Ops.Helpers.handle]
+   Driver.Ops.Protocol.handle, Driver.Ops.Algebraic.handle, Driver.Ops.Triangle.handle, Driver.Ops.Valid.handle, Driver.Ops.Classify.handle, Driver.Ops.Helpers.handle, Driver.Ops.Geometric.handle]
 
 def handle (op : String) (args : List V) : Option String :=
   handlers.firstM (fun h => h op args)
